@@ -236,14 +236,21 @@ Fixpoint cget (fixed : bool) (c : val) (fs : list field) {struct fs} : outcome v
     end
   end.
 
-(* setValue's containerAccess: string keys only, a missing key is an error *)
+(* mapFieldKey (scope/varsscope.go): an existing number key is preferred over the string key *)
+Definition map_field (m : list (val * val)) (f : field) : option val :=
+  match (match f_int f with Some i => mlookup (VNum (NFin i 0)) m | None => None end) with
+  | Some v => Some v
+  | None => mlookup (VStr (f_text f)) m
+  end.
+
+(* setValue's containerAccess: a missing key is an error *)
 Fixpoint caccess (fixed : bool) (c : val) (fs : list field) {struct fs} : outcome val :=
   match fs with
   | [] => Ok c
   | f :: rest =>
     let step : outcome val :=
       match c with
-      | VMap m => match mlookup (VStr (f_text f)) m with Some v => Ok v | None => Err E_PLAIN end
+      | VMap m => match map_field m f with Some v => Ok v | None => Err E_PLAIN end
       | VList l => list_at fixed S_CACC l f
       | _ => Err E_PLAIN
       end in
